@@ -20,6 +20,10 @@ from mc.par import pmap
 E = enums
 MASKS = [CUM.ENCRYPT, CUM.DECRYPT]
 TRACE_FILES = ('kmip/services/server/engine.py',)
+# thorough tier: call events of the session and authentication layers are schedule points as well
+# (code that runs outside the engine lock)
+WIDE_TRACE_FILES = TRACE_FILES + ('kmip/services/server/session.py', 'kmip/services/server/auth/slugs.py',
+                                  'kmip/services/server/auth/utils.py', 'kmip/services/server/auth/api.py')
 
 
 TEAM_POLICY = {'groups': {'g1': {ot: {op: E.Policy.ALLOW_ALL for op in E.Operation}
@@ -162,7 +166,7 @@ def serial_outcomes(name):
     return outs
 
 
-def run_schedule(name, prefix, line_level):
+def run_schedule(name, prefix, line_level, wide=False):
     """One controlled execution. Returns (sched, outcome, problems)."""
     threads = _encode(HARNESSES[name])
     w = _base().clone()
@@ -170,7 +174,8 @@ def run_schedule(name, prefix, line_level):
     try:
         W.CLOCK.now = W.T0 + 500
         W.ENTROPY.constant = True
-        sch = S.Scheduler(prefix, TRACE_FILES, line_level, skip_codes=_lock_wrapper_codes())
+        sch = S.Scheduler(prefix, WIDE_TRACE_FILES if wide else TRACE_FILES, line_level,
+                          skip_codes=_lock_wrapper_codes())
         eng = w.engine
         eng._lock = S.SchedLock(sch)
         sqlalchemy.event.listen(eng._data_store, 'connect',
@@ -232,7 +237,7 @@ def _brief(outcome):
     return out
 
 
-def explore_harness(name, bound, line_level, part, max_exec=None):
+def explore_harness(name, bound, line_level, part, max_exec=None, wide=False):
     serial = serial_outcomes(name)
     distinct = set()
 
@@ -240,7 +245,7 @@ def explore_harness(name, bound, line_level, part, max_exec=None):
         pass
 
     def run_one(prefix):
-        sch, outcome, problems = run_schedule(name, prefix, line_level)
+        sch, outcome, problems = run_schedule(name, prefix, line_level, wide)
         sch._outcome, sch._problems = outcome, problems
         return sch
 
@@ -258,7 +263,7 @@ def explore_harness(name, bound, line_level, part, max_exec=None):
             # replay twice before reporting: the same schedule must fail every time
             choices = list(sch.choices)
             for _ in range(2):
-                s2, o2, p2 = run_schedule(name, choices, line_level)
+                s2, o2, p2 = run_schedule(name, choices, line_level, wide)
                 if o2 != outcome or s2.choices != choices:
                     part.error("nondeterministic replay of schedule %s in harness %s" % (
                         choices[:40], name))
@@ -267,7 +272,7 @@ def explore_harness(name, bound, line_level, part, max_exec=None):
                 part.violation("%s|%s" % (kind, name),
                                "harness %s, schedule (thread per step) %s: %s" % (
                                    name, _compress(sch.step_log), what),
-                               {'harness': name, 'choices': choices, 'line_level': line_level})
+                               {'harness': name, 'choices': choices, 'line_level': line_level, 'wide': wide})
             return True      # one counterexample per harness is enough (fewest preemptions first)
         return False
 
@@ -289,10 +294,11 @@ def _compress(log):
 
 
 def _worker(task):
-    name, bound, line_level, max_exec = task
+    name, bound, line_level, max_exec = task[:4]
+    wide = len(task) > 4 and task[4]
     part = Part()
     try:
-        explore_harness(name, bound, line_level, part, max_exec)
+        explore_harness(name, bound, line_level, part, max_exec, wide)
     except S.HarnessError as e:
         part.error("harness %s: %s" % (name, e))
     part.sample({'harness': name, 'threads': [(u, len(r)) for u, r in HARNESSES[name]]})
@@ -308,6 +314,7 @@ def run(tier, seed):
     if tier == 'thorough':
         tasks += [(n, 2, True, 6000) for n in names]
         tasks += [(n, 3, False, 6000) for n in names if len(HARNESSES[n]) == 2]
+        tasks += [(n, 2, False, 6000, True) for n in names]
     hs = []
     for part in pmap(_worker, tasks):
         hs += part.pop('h', [])
@@ -326,8 +333,9 @@ def run(tier, seed):
                    for h in hs],
         capped_harnesses=capped, exhaustive=not capped,
         explanation="states = complete executions (schedules); transitions = scheduling decisions. "
-                    "Every schedule with <= 2 preemptions (thorough: also line-level points, and "
-                    "bound 3 for two-thread harnesses) of each harness is executed on real session "
+                    "Every schedule with <= 2 preemptions (thorough: also line-level points, "
+                    "bound 3 for two-thread harnesses, and a pass in which call events of the session "
+                    "and authentication modules are schedule points too) of each harness is executed on real session "
                     "threads sharing one engine; with the engine lock intact the only branching is "
                     "the order of lock acquisitions, so the count is the number of interleavings of "
                     "the requests",
@@ -342,6 +350,7 @@ def run(tier, seed):
 def replay(doc):
     name = doc['harness']
     serial = serial_outcomes(name)
-    sch, outcome, problems = run_schedule(name, doc['choices'], doc.get('line_level', False))
+    sch, outcome, problems = run_schedule(name, doc['choices'], doc.get('line_level', False),
+                                          doc.get('wide', False))
     bad = bool(problems) or outcome not in serial
     return bad, "schedule %s -> %s %s" % (_compress(sch.step_log), _brief(outcome), problems or '')
